@@ -9,7 +9,9 @@ import (
 	"fmt"
 	"os"
 	"path/filepath"
+	"regexp"
 	"sort"
+	"strconv"
 	"strings"
 	"time"
 )
@@ -315,7 +317,7 @@ func (c *stepCtx) judge() {
 				c.report("C05", "kill-left-invalid-file", cmdSite, fmt.Sprintf("process killed at seam event %d left an unparseable file: %q", op.Plan.KillAtEvent, shortText(afterT, 300)))
 			}
 		}
-		if hasTarget && afterT != beforeT {
+		if hasTarget && afterT != beforeT && c.sc.Property == "C05" {
 			c.out.Distinct = append(c.out.Distinct, fnv("fault|"+beforeT+"|"+strings.Join(op.Argv, " ")+"|"+afterT))
 		}
 		return
@@ -618,7 +620,7 @@ type jsonEnvelope struct {
 
 func (c *stepCtx) judgeReadOnly() {
 	op, res := c.op, c.res
-	if op.Kind != "json" || !containsArg(op.Argv, "--now") || c.target == "" {
+	if (op.Kind != "json" && op.Kind != "total") || !containsArg(op.Argv, "--now") || c.target == "" {
 		return
 	}
 	st, ok := parseState(c.before[c.target])
@@ -663,12 +665,29 @@ func (c *stepCtx) judgeReadOnly() {
 	if refuse != "" {
 		c.out.stat("now_refusals_expected", 1)
 		if !res.Failed {
-			c.report("C17", "now-not-refused", "json", "--now must be refused ("+refuse+") but klog succeeded: "+shortText(res.Stdout, 300))
+			c.report("C17", "now-not-refused", op.Kind, "--now must be refused ("+refuse+") but klog succeeded: "+shortText(res.Stdout, 300))
 		}
 		return
 	}
 	if res.Failed {
-		c.report("C17", "now-refused", "json", "--now is applicable to every open range but klog failed: "+shortText(res.ErrText, 200))
+		c.report("C17", "now-refused", op.Kind, "--now is applicable to every open range but klog failed: "+shortText(res.ErrText, 200))
+		return
+	}
+	if op.Kind == "total" {
+		// `total --now --decimal --no-style`: first line "Total: <minutes>"; any other shape is not judged
+		m := regexp.MustCompile(`^Total: (-?\d+)\n`).FindStringSubmatch(res.Stdout)
+		if m == nil || !containsArg(op.Argv, "--decimal") {
+			c.out.stat("total_now_not_parsed", 1)
+			return
+		}
+		want := 0
+		for _, e := range expected {
+			want += e
+		}
+		got, _ := strconv.Atoi(m[1])
+		if got != want {
+			c.report("C17", "now-total", "total", fmt.Sprintf("`total --now` reports %d minutes, expected %d (now=%s, file=%q)", got, want, c.clock.Format("2006-01-02T15:04"), shortText(c.before[c.target], 300)))
+		}
 		return
 	}
 	var env jsonEnvelope
